@@ -32,6 +32,10 @@ def programs(tier, seed):
     return ps
 
 
+def zero_like(v):
+    return [zero_like(x) for x in v] if isinstance(v, list) else "0"
+
+
 def jobs(tier, seed):
     rng = random.Random(seed * 7 + 1)
     js, jid = [], 0
@@ -67,6 +71,26 @@ def jobs(tier, seed):
                 js.append({"id": jid, "name": name, "family": fam, "prog": p, "owners": ow, "outs": outs, "observer": obs,
                            "mode": ["Simple", "Default", "Extreme"][(oi + obs) % 3], "inputs_a": ia, "inputs_b": ib,
                            "runs": RUNS[tier], "seed": seed % 100000 + jid})
+    # degenerate hidden inputs (all zero: equal sort keys, zero factors, ...) against random ones: leaks that are a
+    # function of several messages (equality of two openings) show on inputs with structure
+    for name, p, its, fam in plist:
+        if fam != "core":
+            continue
+        k = len(its)
+        for s in range(2 if tier == "quick" else 3):
+            ow = [(i + s) % 3 for i in range(k)]
+            for obs in range(3):
+                hidden = [i for i in range(k) if ow[i] != obs]
+                if not hidden or (tier == "quick" and (s + obs + len(name)) % 2):
+                    continue
+                others = [q for q in range(3) if q != obs]
+                ib = [wide3.rand_value(t, rng) for t in its]
+                ia = list(ib)
+                for i in hidden:
+                    ia[i] = zero_like(ib[i])
+                jid += 1
+                js.append({"id": jid, "name": name, "family": "zero", "prog": p, "owners": ow, "outs": [[], [others[0]], [others[1]]][(s + obs) % 3], "observer": obs,
+                           "mode": ["Simple", "Default", "Extreme"][(s + obs) % 3], "inputs_a": ia, "inputs_b": ib, "runs": RUNS[tier], "seed": seed % 100000 + jid})
     # observers that DO receive the output: only for programs whose result forgets much of the hidden inputs (comparisons,
     # min / max, truncation, multiplexer, products with bits), so that a second input vector with the same result can be
     # found among random candidates (the harness picks the first candidate whose plaintext result is the same)
@@ -124,7 +148,8 @@ def run(chk, tag="detleak"):
     recs.sort(key=lambda r: r["id"])
     if not recs:
         raise lib.ToolError("detleak produced no records: " + " | ".join(failed[:3]))
-    slim = [{"id": r["id"], "per": r["per"], "out": r["out"], "outobs": r["outobs"]} for r in recs]
+    slim = [{"id": r["id"], "per": r["per"], "out": r["out"], "outobs": r["outobs"], "runs": r["runs"], "pairs": r.get("pairs", [])} for r in recs]
+    chk.note(tag + "_value_pairs_judged", sum(len(r.get("pairs", [])) for r in recs))
     lib.write_ndjson(op, slim)
     res = lib.tlc("DetLeakTrace", "MC_DetLeakTrace.cfg", env={"TRACE": op}, workers=8, timeout=3000, coverage=False, xss="1g")
     chk.add_tlc(res, tag)
@@ -135,6 +160,11 @@ def run(chk, tag="detleak"):
         m = re.match(r'<<"LEAK", (\d+), \{(.*)\}>>', l)
         if m:
             leaks.append((recs[int(m.group(1)) - 1], [int(x) for x in m.group(2).split(",") if x.strip()]))
+        m = re.match(r'<<"PAIRLEAK", (\d+), \{(.*)\}>>', l)
+        if m:
+            r = recs[int(m.group(1)) - 1]
+            idx = [int(x) for x in m.group(2).split(",") if x.strip()]
+            leaks.append((r, ["pair %s" % r["pair_nodes"][i - 1] for i in idx]))
         m = re.match(r'<<"MASKED", (\d+), (-?\d+)>>', l)
         if m:
             masked[int(m.group(1))] = int(m.group(2))
